@@ -594,6 +594,7 @@ class Buffer(gpp.UGenParameter, gpp.NodeParameter):
 
         if self._bufnum is None:
             _logger.warning('Buffer has already been freed')
+            return
         self._uncache()
         self._server._buffer_allocator.free(self._bufnum)
         msg = ['/b_free', self._bufnum, fn.value(completion_msg, self)]
